@@ -30,7 +30,7 @@ A_ONE = 'fn main() -> u8\n{\n\tprint!("hi\\n");\n\tvar r: u8 = 3;\n\treturn: r\n
 A_TWO = 'import "b.pn";\n\nfn main() -> u8\n{\n\tprint!("hi\\n");\n\tvar r: u8 = b_three();\n\treturn: r\n}\n'
 B_OK = "pub fn b_three() -> u8\n{\n\treturn: 3\n}\n"
 BAD = {"lex": "\tvar q: u8 = 1 @;\n", "sem": "\tvar q: u8 = nothing;\n"}
-PARAMS = ["sub", "implicit", "verb", "color", "arrows", "wasm", "outdir", "flag", "env", "cfg", "bfail", "input", "nmods", "path"]
+PARAMS = ["sub", "implicit", "verb", "color", "arrows", "wasm", "outdir", "flag", "env", "cfg", "bfail", "input", "nmods", "path", "high"]
 
 
 def canon(c):
@@ -41,13 +41,15 @@ def sources(c):
     """module name -> text; the fault (if any) is in the last module (the imported one when there are two)"""
     pre = "src/" if c["path"] == "nested" else ""
     if c["nmods"] == 1:
-        a = A_ONE
+        a = A_ONE.replace("u8 = 3;", "u8 = 200;") if c.get("high") else A_ONE
         if c["input"] != "valid":
             a = a.replace("\tvar r: u8 = 3;\n", "\tvar r: u8 = 3;\n" + BAD[c["input"]])
         return [(pre + "a.pn", a)]
     b = B_OK
     if c["input"] != "valid":
         b = b.replace("{\n", "{\n" + BAD[c["input"]], 1)
+    if c.get("high"):
+        b = b.replace("return: 3", "return: 200")
     return [(pre + "a.pn", A_TWO), (pre + "b.pn", b)]
 
 
@@ -104,7 +106,7 @@ def run_config(penne, root, idx, case):
         open(os.path.join(d, "cfg.toml"), "w").write('backend = "fake-cfg"\n')
         args += ["--config", "cfg.toml"]
     if c["bfail"]:
-        env["FAKE_EXIT"] = "7" if lli else "1"
+        env["FAKE_EXIT"] = ("200" if c.get("high") else "7") if lli else "1"
     args += [name for name, _ in mods]
     try:
         p = subprocess.run(args, cwd=d, env=env, stdout=subprocess.PIPE, stderr=subprocess.PIPE, timeout=120)
